@@ -271,7 +271,7 @@ def struct_type(draw, o, defs, names, depth, kind="struct", name=None, top=False
                 forms = [f for f in forms if f not in ("eof", "null")]  # zero-size elements: extent undefined
             form = draw(st.sampled_from(forms))
             if form == "fixed":
-                n = draw(st.integers(0 if o["zero_len"] else 1, 4))
+                n = draw(st.integers(0 if o["zero_len"] else 1, o.get("max_len", 4)))
                 if base_dyn and not o["dynamic"]:
                     n = 1
                 t = {"k": "a", "t": base, "len": ["fixed", n]}
